@@ -6,6 +6,7 @@ package main
 import (
 	"encoding/hex"
 	"fmt"
+	"os"
 	"sort"
 	"strconv"
 	"strings"
@@ -205,6 +206,31 @@ func (e *Engine) setupRT() {
 		e.obs = append(e.obs, rec)
 		return nil
 	}
+	x[rtPkg+".Stub"] = func(e *Engine, fr *frame, a []value) value {
+		name := mustStr(a[0])
+		if strings.Contains(name, repoMod+"/") && !strings.Contains(name, rtPkg) {
+			panic("rt.Stub must not replace repository code: " + name)
+		}
+		e.stubs[name] = a[1].(iface).v
+		return nil
+	}
+	x[rtPkg+".Debug"] = func(e *Engine, fr *frame, a []value) value {
+		if os.Getenv("GOSYM_DEBUG") == "" {
+			return nil
+		}
+		msg := mustStr(a[0])
+		for _, v := range e.varargs(a[1]) {
+			g, sym := e.fmtArg(v)
+			if sym != nil {
+				msg += " <symbolic>"
+			} else {
+				msg += fmt.Sprintf(" %v", g)
+			}
+		}
+		fmt.Fprintln(os.Stderr, "rt.Debug:", msg)
+		return nil
+	}
+	x[rtPkg+".OnExit"] = func(e *Engine, fr *frame, a []value) value { e.objs["onexit"] = a[0]; return nil }
 	x[rtPkg+".Daemon"] = func(e *Engine, fr *frame, a []value) value { e.cur.daemon = true; return nil }
 	x[rtPkg+".Yield"] = func(e *Engine, fr *frame, a []value) value { e.yield(); return nil }
 	x[rtPkg+".Quiesce"] = func(e *Engine, fr *frame, a []value) value { return BV(64, uint64(e.quiesce())) }
